@@ -45,8 +45,14 @@ Definition ev_cmd_sends : list chanop := sends_on "eventLoop" "cmds".
 
 Definition guards_of_gen : guards :=
   let facts := Signals.handle_signals_facts in
-  {| g_batch_send := match ev_cmd_sends with [a; _] => ctx_alt a | l => all_guarded l end;
-     g_cmd_send := match ev_cmd_sends with [_; b] => ctx_alt b | l => all_guarded l end;
+  {| (* keyed on where the send sits, not on its position among the sends of eventLoop: the BatchMsg case's body as
+        extracted (gen/Signals.shapes) has the two-case select; the statement after Update is recorded by gen/Dispatch
+        as "cmds<-:ctx" only when its select has the ctx.Done case *)
+     g_batch_send := all_guarded ev_cmd_sends &&
+                     (match find (fun x => fst x =? "eventLoop:BatchMsg") Signals.shapes with
+                      | Some (_, b) => b =? "for _, cmd := range msg { select { case <-p.ctx.Done(): return model, nil case cmds <- cmd: } } ; continue"
+                      | None => false end);
+     g_cmd_send := all_guarded ev_cmd_sends && str_in "cmds<-:ctx" Dispatch.post_switch;
      g_sig_send := no_bare_send "handleSignals" && calls_send "handleSignals" && send_is_guarded && negb (existsb (fun f => String.prefix "bare-send:" f) facts);
      g_fin_broadcast := has_scall Lifecycle.shutdown_calls "" "finishOnce.Do:close(p.finished)";
      g_startup_fail_restores :=
@@ -147,3 +153,9 @@ Definition expected_go_stmts : list (string * string) :=
    ("RestoreTerminal", "p.checkResize"); ("suspend", "p.Send"); ("initCancelReader", "p.readLoop")].
 Definition go_stmts_ok : bool :=
   list_eqb (fun a b => (fst a =? fst b) && (snd a =? snd b)) ChanOps.go_stmts expected_go_stmts.
+
+Definition dend_eqb (a b : dend) : bool :=
+  match a, b with DFall, DFall | DContinue, DContinue => true | DReturn x, DReturn y => x =? y | _, _ => false end.
+Definition dispatch_kinds_ok : bool :=
+  list_eqb (fun a b => list_eqb String.eqb (fst a) (fst b) && dend_eqb (snd a) (snd b))
+           (map (fun c => (dc_types c, dc_end c)) Dispatch.dispatch) RefShapes.ref_dispatch.
